@@ -309,10 +309,10 @@ func checkMain(args []string) int {
 }
 
 // thoroughBudget: number of units explored by the thorough tier per property (chosen so that a run takes
-// roughly one to two hours on 16 cores; GOSYM_THOROUGH_UNITS overrides).
+// roughly 15 to 40 minutes on 16 cores; GOSYM_THOROUGH_UNITS overrides).
 var thoroughBudget = map[string]int{
-	"C01": 40000, "C15": 40000, "C03": 50000, "C04": 50000, "C05": 40000, "C07": 20000, "C18": 30000, "C20": 15000,
-	"C02": 6000, "C08": 5000, "C06": 3000, "C17": 25600, "C16": 8000, "C09": 2800, "C12": 1300, "C13": 1400, "C10": 1200,
+	"C01": 20000, "C15": 20000, "C03": 28000, "C04": 28000, "C05": 24000, "C07": 8000, "C18": 10000, "C20": 6000,
+	"C02": 4000, "C08": 3000, "C06": 1500, "C17": 6000, "C16": 8000, "C09": 2800, "C12": 1300, "C13": 1400, "C10": 1200,
 }
 
 var runInfo map[string]any
